@@ -286,7 +286,11 @@ Section Mono.
         + destruct (call_inner rN hid h s) as [r s1|e s1|p|]; try apply le_refl.
           norm_reg. destruct (sc_missing r); cbn [andb]; [apply le_strict_error|apply le_refl].
         + rewrite Hu. apply le_err.
-      - destruct hid; try discriminate Hci; le_auto.
+      - destruct hid; try discriminate Hci; try solve [le_auto].
+        (* HLocal: the capture bracket of the "c:" mode *)
+        cbv zeta. destruct (starts_with _ name); [|le_auto].
+        destruct (hv_tpl h) as [t|]; [|apply le_refl].
+        le_scrut; [ih|apply le_refl].
     Qed.
 
     Lemma s_eval_decorator dt s :
